@@ -484,7 +484,9 @@ def check_C16():
     viols = []
     for o in rejected:
         target = "stream" if o["stream"] else ("v1-file" if o["v1"] else "v2")
-        if o["sid"] >= 100:      # blockstore.ReadWrite on a real file (which, unlike an io.WriterAt, can be truncated)
+        if o["sid"] in (108, 109):      # the two deferred-writer sessions of harness/fault_bs.go
+            target = "deferred-" + ("v1" if o["v1"] else "v2")
+        elif o["sid"] >= 100:      # blockstore.ReadWrite on a real file (which, unlike an io.WriterAt, can be truncated)
             target = "blockstore-" + ("v1" if o["v1"] else "v2")
         if not o["errret"]:
             sym = "error-swallowed"
